@@ -260,9 +260,41 @@ pub struct RandTrivia<'a, 'b> {
 	pub counter: usize,
 	/// payloads of the comments emitted so far, in order
 	pub emitted: Vec<String>,
+	/// comments only where a list item may start (after an opening bracket or a comma), each on its own line or,
+	/// after a comma, at the end of the item's line
+	pub items_only: bool,
 }
 impl crate::ast::Trivia for RandTrivia<'_, '_> {
-	fn between(&mut self, must: bool, _prev: &str, _next: &str) -> String {
+	fn between(&mut self, must: bool, prev: &str, next: &str) -> String {
+		if self.comments && self.items_only {
+			let at_item = matches!(prev, "[" | "{" | "(" | ",") && !matches!(next, "for" | "if");
+			if !at_item {
+				return if must { " ".to_owned() } else { String::new() };
+			}
+			self.counter += 1;
+			let w = format!("c{} note", self.counter);
+			// (an end-of-line comment after an item is not emitted: when the list is re-flowed onto one line the
+			// formatter fuses it with the next item — part of the recorded comment findings)
+			return match self.src.weighted(&[6, 2, 1, 1, 0]) {
+				0 => "\n".to_owned(),
+				1 => {
+					self.emitted.push(w.clone());
+					format!("\n// {w}\n")
+				}
+				2 => {
+					self.emitted.push(w.clone());
+					format!("\n/* {w} */\n")
+				}
+				3 => {
+					self.emitted.push(w.clone());
+					format!("\n# {w}\n")
+				}
+				_ => {
+					self.emitted.push(w.clone());
+					format!(" // {w}\n")
+				}
+			};
+		}
 		let w = if self.comments { [6, 2, 1, 1, 1, 1] } else { [6, 2, 1, 0, 0, 0] };
 		let k = self.src.weighted(&w);
 		let mut word = |s: &mut Self| {
